@@ -48,6 +48,7 @@ func checkC16(ctx *Ctx, r *Report, tier string) {
 		r.expectControl("O2", "verifCtlMinMaxDist2NoEdges")
 	}
 	checkUnionPrune(ctx, r)
+	checkUnionBlend(ctx, r)
 	r.floor("O1", 1)
 	r.floor("O2", 9+27+4)
 	r.floor("O3", 8)
@@ -399,6 +400,45 @@ func checkUnionPrune(ctx *Ctx, r *Report) {
 	mark := len(recOrder)
 	ev := newEval(ctx, "Overlap", "MinMaxDist2")
 	res, _ := ev.evalRoot(fn)
+	if len(ev.RootRets) > 1 {
+		// Evaluate has modes (boolean fields of the union decide between them): O3 is about the
+		// mode that prunes, i.e. the one in which Overlap is consulted; O4 covers the mode that
+		// SetMin selects
+		recv := paramName(fn, 0)
+		flags := map[string]bool{}
+		for _, alt := range ev.RootRets {
+			for _, c := range conjuncts(alt.Cond) {
+				if c.Op == "not" {
+					c = c.Args[0]
+				}
+				if c.Op == "a" && strings.HasPrefix(c.S, recv+".") {
+					flags[c.S] = true
+				}
+			}
+		}
+		var fl []string
+		for f := range flags {
+			fl = append(fl, f)
+		}
+		sort.Strings(fl)
+		for m := 0; len(fl) > 0 && len(fl) <= 3 && m < 1<<uint(len(fl)); m++ {
+			mark2 := len(recOrder)
+			ev2 := newEval(ctx, "Overlap", "MinMaxDist2")
+			ev2.assume = map[string]bool{}
+			for i, f := range fl {
+				ev2.assume[f] = m>>uint(i)&1 == 1
+			}
+			res2, _ := ev2.evalRoot(fn)
+			// the pruning mode: the one that consults Overlap; failing that (the test was edited
+			// away) the mode with every flag off, which is what the constructor leaves behind
+			if len(eventsOf(ev2, ".Overlap")) > 0 || (m == 0 && len(eventsOf(ev, ".Overlap")) == 0) {
+				ev, res, mark = ev2, res2, mark2
+				if len(eventsOf(ev2, ".Overlap")) > 0 {
+					break
+				}
+			}
+		}
+	}
 	folds := recsSince(mark)
 	names := make([]string, 0, len(folds))
 	for n := range folds {
@@ -576,4 +616,66 @@ func checkUnionPrune(ctx *Ctx, r *Report) {
 		}
 	}
 	r.check("O3", "sdf.UnionSDF2.EvaluateSlow|folds-every-operand", sfn.Pos(), okSlow, "reference: d = s.min over s.sdf[i].Evaluate(p) for every i")
+}
+
+// ---------------------------------------------------------------- O4: pruning and blend functions
+
+// checkUnionBlend: skipping an operand whose box is farther than the nearest box's farthest
+// corner is exact for the plain minimum only. A blend function (PolyMin, RoundMin ...) lets an
+// operand within its blend radius pull the value down, also across zero: with a blend installed
+// by SetMin the pruned evaluation reported points inside the blended union as outside. So in the
+// state SetMin leaves behind, Evaluate must not make any operand evaluation depend on a
+// bounding-box distance. Decided by composing constructor, SetMin and Evaluate symbolically.
+func checkUnionBlend(ctx *Ctx, r *Report) {
+	fn := ctx.ssaFunc("sdf", "Union2D")
+	if fn == nil {
+		r.undecided("O4", "Union2D", 0, "not found")
+		return
+	}
+	alts, _ := ctorAlts(ctx, fn)
+	n := 0
+	for _, ca := range alts {
+		if methodOf(ctx, ca.typ, "SetMin") == nil {
+			continue
+		}
+		n++
+		key := typeShort(ca.typ) + "|blended-union-evaluates-every-operand"
+		after, err := composeApply(ctx, ca, "SetMin")
+		if err != nil {
+			r.undecided("O4", key, fn.Pos(), err.Error())
+			continue
+		}
+		_, ev, err := composeMethod(ctx, after, "Evaluate", "MinMaxDist2", "Overlap")
+		if err != nil || ev.Exceeded {
+			r.undecided("O4", key, fn.Pos(), fmt.Sprintf("cannot evaluate Evaluate after SetMin: %v", err))
+			continue
+		}
+		nEval, bad := 0, ""
+		for _, e := range ev.Events {
+			if !strings.HasSuffix(e.Callee, ".Evaluate") || !strings.HasPrefix(e.Callee, "invoke:") {
+				continue
+			}
+			nEval++
+			if e.Cond == nil {
+				continue
+			}
+			for _, c := range conjuncts(e.Cond) {
+				if len(findSub(c, func(x *Term) bool {
+					return (x.Op == "call" || x.Op == "a" || x.Op == "sel") && (strings.Contains(x.S, "MinMaxDist2") || strings.Contains(x.S, "Overlap") || strings.Contains(x.S, "BoundingBox"))
+				})) > 0 {
+					bad = shortKey(c.Key(), 160)
+				}
+			}
+		}
+		pos := methodOf(ctx, ca.typ, "Evaluate").Pos()
+		if nEval == 0 {
+			r.undecided("O4", key, pos, "no operand evaluation found after SetMin")
+			continue
+		}
+		r.check("O4", key, pos, bad == "", "after SetMin(blend) no operand may be skipped on the strength of its box distance (pruning is exact for the plain minimum only); an operand evaluation is still conditional on "+bad)
+	}
+	if n == 0 {
+		r.check("O4", "Union2D|blended-union-evaluates-every-operand", fn.Pos(), true, "the union has no SetMin: only the plain minimum is ever folded")
+	}
+	r.floor("O4", 1)
 }
